@@ -205,3 +205,31 @@ type unsupportedErr struct{ msg string }
 
 func (u unsupportedErr) Error() string { return "unsupported: " + u.msg }
 func unsupported(msg string) unsupportedErr { return unsupportedErr{msg} }
+
+// walkSlots visits the leaf components of a value of type t in slot order.
+func walkSlots(l *Layout, t types.Type, visit func(kind string, n int)) {
+	switch u := t.Underlying().(type) {
+	case *types.Struct:
+		for i := 0; i < u.NumFields(); i++ {
+			walkSlots(l, u.Field(i).Type(), visit)
+		}
+	case *types.Array:
+		if u.Len()*l.Size(u.Elem()) > maxValueSlots {
+			visit("other", int(u.Len()*l.Size(u.Elem())))
+			return
+		}
+		for i := int64(0); i < u.Len(); i++ {
+			walkSlots(l, u.Elem(), visit)
+		}
+	case *types.Slice:
+		visit("slice", 4)
+	case *types.Basic:
+		if u.Info()&types.IsString != 0 {
+			visit("string", 1)
+		} else {
+			visit("other", int(l.Size(t)))
+		}
+	default:
+		visit("other", int(l.Size(t)))
+	}
+}
